@@ -92,6 +92,39 @@ def check(run):
         sc.exp_results.append("Ok:Member:04A1B2C3D4E5F6")
         scs.append(sc)
         kinds["serial-in-configure"] = kinds.get("serial-in-configure", 0) + 1
+    # ... while the SAME serial in another spelling (case) is the same terminal: configure() goes through on the connection in
+    # use and the next operation reuses it (no reconnect)
+    for spell in (str.lower, str.upper, str.swapcase):
+        sc = cc.Scenario(S, {"max": 2}).start(); cfg = sc.cfg
+        sc.ops.append("configure")
+        sc.exchange(S.sysinfo_req(), [S.sysinfo(spell(cfg["serial"]), cfg["tid"])])
+        sc.exchange(S.initialization(cfg["pw"]), [S.completion()])
+        sc.exchange(S.pending_query(), [S.pr_abort(0xb8, 0xFFFF)])
+        sc.exchange(S.end_of_day(cfg["pw"]), [S.completion()])
+        sc.exp_results.append("Ok")
+        sc.ops.append("read_card")
+        sc.exchange(S.read_card_req(cfg["rct"]), [S.status_info({0x27: 0, 0x06: {"uuid": "04a1b2c3d4e5f6"}})])
+        sc.exp_results.append("Ok:Member:04A1B2C3D4E5F6")
+        scs.append(sc)
+        kinds["same-serial-other-case-in-configure"] = kinds.get("same-serial-other-case-in-configure", 0) + 1
+    # the identity query of a handshake answered by an ABORT (or the registration refused): that connection is never used for a
+    # command; the attempt counts as failed and the next one starts over on a new connection
+    for which in ("identity", "registration"):
+        for code in (0x6f, 0x64, 0xb8):
+            sc = cc.Scenario(S, {"max": 2}); cfg = sc.cfg
+            if which == "identity":
+                sc.exchange(S.registration(cfg["pw"], cfg["cur"]), [S.completion()])
+                sc.exchange(S.sysinfo_req(), [S.abort(code)])
+            else:
+                # an abort is not a member of the registration's reply set: it is not acknowledged, the attempt fails
+                sc.expect_write(S.registration(cfg["pw"], cfg["cur"])); sc.feed(cc.ACK); sc.feed(S.abort(code))
+            sc.new_conn()
+            sc.start()
+            sc.ops.append("read_card")
+            sc.exchange(S.read_card_req(cfg["rct"]), [S.status_info({0x27: 0, 0x06: {"uuid": "04a1b2c3d4e5f6"}})])
+            sc.exp_results.append("Ok:Member:04A1B2C3D4E5F6")
+            scs.append(sc)
+            kinds["handshake-aborted:" + which] = kinds.get("handshake-aborted:" + which, 0) + 1
     cases, mo, io = run_scenarios(run, scs, "c09")
     diffs = judge(run, scs, cases, mo, io,
                   "after a failed exchange (close, garbage, NACK, silence, truncated packet) nothing more is written to that connection; the retry runs on a NEW "
